@@ -8,7 +8,7 @@ from vf.flo import gen, prog as P
 LEVEL = "exploration"
 RULE = ("seeded random programs with 2-4 active/inactive framers (some with periods, in front/mid/back orders) and 1-2 slaves whose "
         "frames issue bids of all five kinds (incl. all / me, two bids in a row) and ready/start/run/stop/abort fiats at arbitrary "
-        "ticks; every scheduler send is one oracle evaluation; distinct = distinct program text; non-trivial = at least 3 bids "
+        "ticks; every scheduler send is one oracle evaluation plus plans with two or three houses in which a clone (reared at run time or built with `aux .. as`) bids a tasker name that every house has; distinct = distinct program text; non-trivial = at least 3 bids "
         "or fiats executed")
 META = {"engine": "A floscript", "technique": "runtime history monitor: control received vs (last bid | self-set desire) table model; "
                                                "icontract post-conditions on the Fiat actions",
